@@ -20,6 +20,8 @@ def validate_decoded(byte_array):
       "the class {} is incompatible with the datatype\n"
       .format(byte_array.__class__.__name__)+
       "(accepted classes: gfapy.ByteArray)")
+  if len(byte_array) == 0:
+    raise gfapy.ValueError("an empty byte array cannot be written as H field")
   return byte_array.validate()
 
 def unsafe_encode(obj):
